@@ -251,7 +251,7 @@ func (c Call) build() *args {
 			rv := reflect.ValueOf(v)
 			m := reflect.MakeMap(reflect.MapOf(reflect.TypeOf(""), rv.Type()))
 			m.SetMapIndex(reflect.ValueOf("a"), rv)
-			m.SetMapIndex(reflect.ValueOf("b"), reflect.ValueOf(mkValue(c.Type, c.Val)))
+			m.SetMapIndex(reflect.ValueOf("b"), reflect.ValueOf(mkv(c.Val+1)))
 			a.src = m.Interface()
 			a.unordered = true
 		case 4:
@@ -349,7 +349,7 @@ func (c Call) build() *args {
 func trimMaps(v interface{}) {
 	one := func(c *Cart) {
 		if c != nil && len(c.ByKey) > 1 {
-			c.ByKey = map[string]*Item{"a": c.ByKey["a"]}
+			c.ByKey = map[string]*Item{"b": c.ByKey["b"]}
 		}
 	}
 	switch x := v.(type) {
